@@ -5,7 +5,7 @@ CONSTANTS
   MaxSteps = 3
   ReleaseOnFailedCtor = TRUE
   RollbackKeepsLock = TRUE
-  AllowFailedRollback = FALSE
+  FailedRollbackKeepsLock = TRUE
   AtomicAcquire = FALSE
 CONSTRAINT Bounded
 INVARIANT RaceLemma
